@@ -1,7 +1,7 @@
 (** C12: login throttling stops guessing; sessions are valid only until expiry
     or logout.  Only statements here; proofs live in Proofs/RateLimit.v and
     Proofs/Session.v. *)
-From AGH Require Import Base.Run Model.RateLimit Model.Session Proofs.RateLimit Proofs.Session Proofs.LimiterCfg Proofs.AuthPins Gen.AuthPins.
+From AGH Require Import Base.Run Model.RateLimit Model.Session Model.SessionConc Proofs.RateLimit Proofs.Session Proofs.SessionConc Proofs.LimiterCfg Proofs.AuthPins Gen.AuthPins.
 From stdpp Require Import gmap.
 Local Open Scope Z_scope.
 
@@ -515,3 +515,155 @@ Theorem C12_session_clock_truncation_exact : forall ns e : Z,
   (ns / second_ns < e <-> ns < e * second_ns)%Z.
 Proof. exact unix_truncation_exact. Qed.
 Print Assumptions C12_session_clock_truncation_exact.
+
+(** ** Round 5: concurrent requests (Model/SessionConc.v)
+
+    Requests are threads; each operation is the sequence of atomic steps the
+    code has (a lock section over the map without a transaction inside is one
+    step; checkSession's section with the refresh store or the expiry delete
+    inside is enter / transaction / leave; single bbolt write transactions).
+    [ctrans]: some thread takes a step, a request arrives, or the process
+    restarts wherever its threads are.  [admissible]: tokens are byte strings,
+    a token being issued is new, and a cookie is sent only after the login
+    that issued it was answered.  [c_out]: the cookie strings whose
+    removeSession has returned. *)
+Section Concurrent.
+Local Open Scope N_scope.
+
+(** For ALL interleavings of any number of requests of any kind with the
+    logout, restarts at any point included: once removeSession has returned
+    for the cookie of token [raw] (the logout is answered right after), no
+    spelling of that token authenticates, in this process or after a restart,
+    in any state reachable from there; and the file does not hold it. *)
+Theorem C12_logout_final_concurrent :
+  forall (ttl : N) (ok : cstate -> list cop -> Prop),
+  (forall st ops, ok st ops -> admissible st ops) ->
+  forall d st st' raw,
+  (forall r s, d !! r = Some s -> is_bytes r) ->
+  creach (code_cfg ttl) ok (cstart d) st ->
+  is_bytes raw -> hex_encode raw ∈ c_out st ->
+  creach (code_cfg ttl) ok st st' ->
+  forall sp', hex_decode_prefix sp' = raw ->
+    (forall now, authenticates ttl now sp' (sstate_of st') = false) /\
+    (forall now now', authenticates ttl now' sp' (sstate_of (crestart now st')) = false) /\
+    c_disk st' !! raw = None.
+Proof. exact logout_final_concurrent. Qed.
+Print Assumptions C12_logout_final_concurrent.
+
+(** The mirror under concurrency: every record in the file is in memory, or a
+    delete of it is on its way (a removeSession between its two halves, an
+    expired session being dropped inside checkSession's section). *)
+Theorem C12_mirror_concurrent :
+  forall (ttl : N) (ok : cstate -> list cop -> Prop),
+  (forall st ops, ok st ops -> admissible st ops) ->
+  forall d st,
+  (forall r s, d !! r = Some s -> is_bytes r) ->
+  creach (code_cfg ttl) ok (cstart d) st ->
+  forall raw s, c_disk st !! raw = Some s ->
+    is_Some (c_mem st !! hex_encode raw) \/ pending_del raw st.
+Proof. exact mirror_concurrent. Qed.
+Print Assumptions C12_mirror_concurrent.
+
+(** So a restart at any point brings back nothing but what was in memory or
+    what a removal that had not been answered yet was about to delete. *)
+Theorem C12_restart_resurrects_only_pending :
+  forall (ttl : N) (ok : cstate -> list cop -> Prop),
+  (forall st ops, ok st ops -> admissible st ops) ->
+  forall d st now sp s,
+  (forall r s, d !! r = Some s -> is_bytes r) ->
+  creach (code_cfg ttl) ok (cstart d) st ->
+  c_mem (crestart now st) !! sp = Some s ->
+  is_Some (c_mem st !! sp) \/ pending_del (hex_decode_prefix sp) st.
+Proof. exact restart_resurrects_only_pending. Qed.
+Print Assumptions C12_restart_resurrects_only_pending.
+
+(** At most one request is inside a section that contains a transaction. *)
+Theorem C12_sections_exclusive :
+  forall (ttl : N) (ok : cstate -> list cop -> Prop),
+  (forall st ops, ok st ops -> admissible st ops) ->
+  forall d st j1 j2 t1 t2,
+  (forall r s, d !! r = Some s -> is_bytes r) ->
+  creach (code_cfg ttl) ok (cstart d) st ->
+  c_thr st !! j1 = Some t1 -> c_thr st !! j2 = Some t2 -> holding t1 -> holding t2 -> j1 = j2.
+Proof. exact sections_exclusive. Qed.
+Print Assumptions C12_sections_exclusive.
+
+(** Run alone, a request does what the sequential model (the theorems above)
+    says: checkSession, removeSession, addSession, GET /control/logout. *)
+Theorem C12_sequential_agrees : forall ttl s,
+  (forall now sp, sstate_of (alone ttl [OCheck now sp] s) = fst (check_session ttl now sp s) /\
+                  (exists t, c_thr (alone ttl [OCheck now sp] s) = [t] /\
+                             t_res t = [snd (check_session ttl now sp s)] /\ finished t = true)) /\
+  (forall sp, sstate_of (alone ttl [ORemove sp] s) = logout sp s) /\
+  (forall now raw u, sstate_of (alone ttl [OAdd now raw u] s) = new_session ttl now raw u s) /\
+  (forall now sp, sstate_of (alone ttl [ORead 0; OCheck now sp; ORemove sp] s) = fst (logout_request ttl now sp s)).
+Proof. exact sequential_agrees. Qed.
+Print Assumptions C12_sequential_agrees.
+
+(** Non-vacuity: a day-old session; the request enters its section first, is
+    served and stores the refreshed expiry while the logout waits for the
+    lock; then the logout runs and is answered. *)
+Example C12_concurrent_premises_satisfiable :
+  exists st,
+    exec (code_cfg ex_ttl) ex_sched_code (cstart ex_d) = Some st /\
+    creach (code_cfg ex_ttl) admissible (cstart ex_d) st /\
+    is_bytes ex_tok /\ hex_encode ex_tok ∈ c_out st /\
+    (exists t, c_thr st !! 1%nat = Some t /\ t_res t = [CSOK]) /\
+    (exists st1, exec (code_cfg ex_ttl) (firstn 4 ex_sched_code) (cstart ex_d) = Some st1 /\
+                 c_lock st1 = Some 1%nat /\ cstep (code_cfg ex_ttl) 0 st1 = None) /\
+    authenticates ex_ttl ex_now ex_sp (sstate_of (cstart ex_d)) = true.
+Proof. exact logout_final_premises_satisfiable. Qed.
+Print Assumptions C12_concurrent_premises_satisfiable.
+
+(** The order of removeSession's halves is needed (seeded change C12-I): file
+    first, then memory.  Schedule: the logout deletes the record; a request
+    with the same day-old session enters its section, refreshes the expiry,
+    stores the record, leaves; the logout deletes the map entry and is
+    answered.  Dead in this process, alive after a restart.  On the code's
+    order the request is refused and nothing comes back. *)
+Example C12_logout_file_first_refuted :
+  exists st,
+    exec (file_first_cfg ex_ttl)
+         [ASpawn [ORemove ex_sp]; ASpawn [ORead 0; OCheck ex_now ex_sp];
+          AStep 0; AStep 1; AStep 1; AStep 1; AStep 1; AStep 0] (cstart ex_d) = Some st /\
+    hex_encode ex_tok ∈ c_out st /\
+    finished <$> c_thr st = [true; true] /\
+    authenticates ex_ttl (ex_now + 10) ex_sp (sstate_of st) = false /\
+    authenticates ex_ttl (ex_now + 10) ex_sp (sstate_of (crestart (ex_now + 5) st)) = true /\
+    (exists st', exec (code_cfg ex_ttl) [ASpawn ex_L; ASpawn ex_R; AStep 0; AStep 1; AStep 1; AStep 0] (cstart ex_d) = Some st' /\
+                 authenticates ex_ttl (ex_now + 10) ex_sp (sstate_of (crestart (ex_now + 5) st')) = false).
+Proof. exact logout_file_first_refuted. Qed.
+Print Assumptions C12_logout_file_first_refuted.
+
+(** The same through GET /control/logout (whose own checkSession would do the
+    refresh): the two requests read the clock on either side of a day boundary
+    of now + ttl. *)
+Example C12_logout_file_first_http_refuted :
+  let d : gmap bytes sess := {[ ex_tok := ex_young ]} in
+  let Lg := [ORead 0; OCheck 86399 ex_sp; ORemove ex_sp] in
+  let R := [ORead 0; OCheck 86400 ex_sp] in
+  exists st,
+    exec (file_first_cfg ex_ttl)
+         [ASpawn Lg; ASpawn R; AStep 0; AStep 0; AStep 0; AStep 1; AStep 1; AStep 1; AStep 1; AStep 0] (cstart d) = Some st /\
+    hex_encode ex_tok ∈ c_out st /\
+    authenticates ex_ttl 86500 ex_sp (sstate_of (crestart 86450 st)) = true.
+Proof. exact logout_file_first_http_refuted. Qed.
+Print Assumptions C12_logout_file_first_http_refuted.
+
+(** The place of the refresh store is needed: stored after the section is
+    left, a logout can run between lookup and store, and the store brings the
+    record back.  On the code the logout's first step is not enabled while the
+    request is inside its section. *)
+Example C12_refresh_store_unlocked_refuted :
+  exists st,
+    exec (store_unlocked_cfg ex_ttl)
+         [ASpawn ex_L; ASpawn ex_R; AStep 1; AStep 1; AStep 0; AStep 0; AStep 1] (cstart ex_d) = Some st /\
+    hex_encode ex_tok ∈ c_out st /\
+    finished <$> c_thr st = [true; true] /\
+    authenticates ex_ttl (ex_now + 10) ex_sp (sstate_of st) = false /\
+    authenticates ex_ttl (ex_now + 10) ex_sp (sstate_of (crestart (ex_now + 5) st)) = true /\
+    (exists st1, exec (code_cfg ex_ttl) [ASpawn ex_L; ASpawn ex_R; AStep 1; AStep 1] (cstart ex_d) = Some st1 /\
+                 cstep (code_cfg ex_ttl) 0 st1 = None).
+Proof. exact refresh_store_unlocked_refuted. Qed.
+Print Assumptions C12_refresh_store_unlocked_refuted.
+End Concurrent.
